@@ -54,7 +54,14 @@ RULE = ('kernel/vfw: 1-4 inputs-pairs lists with autocorrelations at random posi
         'cases); vv: real table; avg: Gaussian-integer visibilities scaled so that the weighted mean is exact in '
         'complex64, weights 2^e or small integers (also negative, summing to zero), all factors 1..size+2, flag patterns '
         'with empty, partly and fully flagged bins, 127..257 baselines (block boundaries of the kernel), an empty axis, '
-        'the call without options.  A case is one configuration; non-trivial when it has a cross product with two '
+        'the call without options; every avg case hands the flags over as a canonical 0/1 bool array, as a bool VIEW of '
+        'arbitrary bytes (True backed by 2, 4, 16, 80, 255 ...) or as bitwise_and(select, raw).view(bool) for 11 selection '
+        'masks with unselected bits set on unflagged samples; v4avg: average_visibilities(d.vis[:], d.weights[:], '
+        'd.flags[:]) on real v4 data sets with stored flag bytes under 12 flag selections (all, single bits, none, '
+        'mixtures); vvtable: the real autocorr_lookup_table for 6 level sets (MeerKAT 255 levels, 6 / 4 / 2 bit, 3 level, '
+        'offset -128..127) x sizes default, 3..1000 and the refused 1, 2 - exact checks of the table, of the intermediate '
+        'grid / expected quantised powers, construction by the model node for node, a dead input through '
+        'correct_autocorr_quantisation.  A case is one configuration; non-trivial when it has a cross product with two '
         'different autocorrelations and a special value or a non-unit weight (weights), a lost chunk / preselection / '
         'non-default option (store), a non-zero excision (v4), more than one sample per bin and a flag (avg); distinct by '
         'the whole configuration')
@@ -64,7 +71,7 @@ ASSUMPTIONS = ['float32 rounding, overflow and underflow are not modelled: gener
                'the sign of zero is not in the carrier (-0.0 is generated; a Coq lemma shows the kernel result does '
                'not depend on it)',
                'Van Vleck with the real table: |impl - exact interpolation| <= 1 ulp of float32 (np.interp rounds in '
-               'float64, then complex64 storage rounds once more); monotonicity of the real table checked numerically',
+               'float64, then complex64 storage rounds once more); the real table and the intermediate arrays of its construction are checked exactly on every run (vv_numerics_ok is a hypothesis of the construction theorems, not proved for the erf numerics)',
                'averager: bins whose exact mean is not a float32 (or whose unweighted fall-back multiplies by the '
                'rounded float32(1/n)) are compared within 2 ulp of float32 per component; all others exactly',
                'averager inputs are finite (NaN / infinite visibilities or weights are outside the model)',
@@ -500,7 +507,11 @@ def prefetch_kernel(ctx, cfgs):
 
 
 def prefetch_avg(ctx, cfgs):
-    prefetch(ctx, [avg_wire(c) for c in cfgs] + [avg_api_wire(c) for c in cfgs])
+    try:
+        prefetch(ctx, [avg_wire(c) for c in cfgs] + [avg_api_wire(c) for c in cfgs])
+    except Exception:
+        if not ctx.searching:
+            raise
 
 # --------------------------------------------------------------------------- route kernel
 def kernel_wire(cfg):
@@ -522,9 +533,68 @@ def avg_wire(cfg):
 
 
 def avg_api_wire(cfg):
-    """the function as written (baseline blocks of the regenerated size; () = the regenerated default options)."""
+    """the function as written (baseline blocks of the regenerated size; () = the regenerated default options).
+    With flag BYTES in the case: wire_1513 (the regenerated test on the byte; select >= 0 = the v4 delivery
+    bitwise_and(select, raw) viewed as bool)."""
     opts = [] if cfg.get('shape_kind') == 'defaults' else [cfg['timeav'], cfg['chanav'], int(cfg['flagav'])]
+    if cfg.get('bytes') is not None:
+        T, F, B = cfg['T'], cfg['F'], cfg['B']
+        smp = [[[[cfg['vis'][t][f][b][0], cfg['vis'][t][f][b][1], cfg['w'][t][f][b], int(cfg['bytes'][t][f][b])]
+                 for b in range(B)] for f in range(F)] for t in range(T)]
+        return [1513, [T, F, B, opts, int(cfg.get('select', -1)), smp]]
     return [1510, [cfg['T'], cfg['F'], cfg['B'], opts, avg_samples(cfg)]]
+
+
+def py_avg(cfg):
+    """Python statement of the property for one call (exact rationals), used ONLY as the failing-input search when no
+    model binary can be built (a translator item refused the tree): bins of min(timeav, T) x chanav, weighted mean of
+    the unflagged samples (plain mean when their weights sum to 0), summed unflagged weights, AND / OR of the flags.
+    Returns (wire_155-like, wire_1510-like)."""
+    T, F, B = cfg['T'], cfg['F'], cfg['B']
+    ta, ca, fa = min(cfg['timeav'], T), cfg['chanav'], cfg['flagav']
+    if ta == 0 or ca == 0:
+        return [0], [0, [cfg['timeav'], cfg['chanav']]]
+
+    def fr(l):
+        return Fraction(l[0], 1 << l[1])
+
+    def cell(q):
+        return [int(q.numerator), int(q.denominator)]
+    res = []
+    for i in range(T // ta):
+        row = []
+        for j in range(F // ca):
+            col = []
+            for b in range(B):
+                pos = [(t, c) for t in range(i * ta, (i + 1) * ta) for c in range(j * ca, (j + 1) * ca)]
+                fl = [bool(cfg['flags'][t][c][b]) for t, c in pos]
+                W = sum((fr(cfg['w'][t][c][b]) for (t, c), f in zip(pos, fl) if not f), Fraction(0))
+                out = []
+                for k in (0, 1):
+                    if W == 0:
+                        v = sum((fr(cfg['vis'][t][c][b][k]) for t, c in pos), Fraction(0)) / len(pos)
+                    else:
+                        v = sum((fr(cfg['w'][t][c][b]) * fr(cfg['vis'][t][c][b][k]) for (t, c), f in zip(pos, fl) if not f),
+                                Fraction(0)) / W
+                    out.append(cell(v))
+                col.append(out + [cell(W), int(any(fl) if fa else all(fl))])
+            row.append(col)
+        res.append(row)
+    return [1, res, res], [1, [T // ta, F // ca, B], res, [cfg['timeav'], cfg['chanav']]]
+
+
+def avg_models(ctx, cfg):
+    """(wire_155 answer, wire_1510 / 1513 answer); the Python statement of the property while searching without a model"""
+    if ctx.model_ok:
+        try:
+            return cmodel(ctx, avg_wire(cfg)), cmodel(ctx, avg_api_wire(cfg))
+        except Exception:
+            if not ctx.searching:
+                raise
+    elif not ctx.searching:
+        raise RuntimeError('no model binary')
+    ctx.extra['avg_python_statement_used_for_search'] = True
+    return py_avg(cfg)
 
 
 def cross_check_extraction(ctx):
@@ -1581,6 +1651,11 @@ def run_vv(ctx, cfg):
             pairs.append((lit_float(cfg['vis'][t][f][b][0]), float(z.real), mv))
         else:
             good = iv == mv
+        xin = lit_float(cfg['vis'][t][f][b][0]) if len(cfg['vis'][t][f][b][0]) in (2, 3) else None
+        if xin is not None and xin <= 0 and not (z.real == 0):
+            ctx.disagree('route=vv;obs=auto;vs=spec;symptom=zero_not_mapped_to_zero', dict(cfg, at=[t, f, b]), str(z), '0',
+                         'a zero / negative autocorrelation (dead input) is given a non-zero corrected power')
+            break
         if not good or not (z.imag == 0):
             ctx.disagree('route=vv;obs=auto;symptom=%s' % ('imag_nonzero' if good else 'wrong_value'), cfg,
                          dict(at=[t, f, b], value=str(z)), str(mv),
@@ -1609,15 +1684,152 @@ def run_vv(ctx, cfg):
     ctx.count('route=vv')
 
 
-def check_real_table(ctx):
-    tab = real_table()
-    xs, ys = tab['xs'], tab['ys']
-    ok = bool(np.all(np.diff(xs) > 0) and np.all(np.diff(ys) >= 0))
-    ctx.extra['real_van_vleck_table_monotone'] = ok
-    ctx.extra['real_van_vleck_table_size'] = int(len(xs))
-    if not ok:
-        ctx.disagree('route=vv;obs=table;symptom=not_monotone', dict(route='vvtable'), 'not monotone', 'monotone',
-                     'the MeerKAT Van Vleck lookup table is not (strictly, weakly) increasing')
+VV_LEVELS = {'meerkat': (-127, 128), '4bit': (-7, 8), '3level': (-1, 2), '2bit_sym': (-3, 4), 'offset': (-128, 128),
+             '6bit': (-31, 32)}
+
+
+def gen_vvtable(rng, default=False):
+    if default:
+        return dict(route='vvtable', levels='meerkat', size=None)
+    return dict(route='vvtable', levels=rng.choice(sorted(VV_LEVELS)),
+                size=rng.choice([3, 4, 5, 6, 10, 11, 64, 257, 500, 1000, 2, 1]))
+
+
+def check_real_table(ctx, cfg=None):
+    """The REAL lookup table(s) of katdal.van_vleck.autocorr_lookup_table, checked exactly (float64 values are dyadic
+    rationals): (property) abscissae strictly increasing, ordinates non-decreasing, first node the origin, VV(0) = 0 and
+    VV(x) = 0 for x < 0 - by np.interp, by the model's interpolation on the real table (wire_1514 = the decision
+    procedure of theorem vanvleck_table_check_sound) and through correct_autocorr_quantisation on a dead input;
+    the hypotheses `vv_numerics_ok` of the construction theorems on the intermediate arrays the real function computes
+    (captured from its call of _squared_quant_norm0_mean); (tie) the model's construction from those arrays equals
+    the returned table node for node (wire_1512) and has the predicted size."""
+    import katdal.van_vleck as vvm
+    cfg = cfg or dict(route='vvtable', levels='meerkat', size=None)
+    lo, hi = VV_LEVELS[cfg['levels']]
+    levels = np.arange(float(lo), float(hi))
+    size = cfg.get('size')
+    tag = 'levels=%s;size=%s' % (cfg['levels'], 'default' if size is None else ('small' if size < 64 else 'large'))
+    cap = {}
+    orig = vvm._squared_quant_norm0_mean
+
+    def spy(lv, var=1.0):
+        out = orig(lv, var)
+        cap['grid'], cap['mean'] = np.array(var, float).ravel().copy(), np.array(out, float).ravel().copy()
+        return out
+    vvm._squared_quant_norm0_mean = spy
+    try:
+        with np.errstate(all='ignore'):
+            xs, ys = vvm.autocorr_lookup_table(levels) if size is None else vvm.autocorr_lookup_table(levels, size)
+        err = None
+    except Exception as e:
+        err = e
+    finally:
+        vvm._squared_quant_norm0_mean = orig
+    ctx.count('vvtable_' + tag)
+    nsize = 4000 if size is None else size
+    if err is not None:
+        # numpy refuses a negative number of grid points (size 2) or an empty grid (rxx_grid[-1]); never an answer
+        if nsize >= 4:
+            ctx.disagree('route=vvtable;%s;symptom=raises;exc=%s' % (tag, type(err).__name__), cfg, repr(err)[:200], 'table',
+                         'autocorr_lookup_table raised for a size of at least 4')
+        ctx.note_case(cfg_key(cfg), nontrivial=False)
+        return
+    xs, ys = np.asarray(xs, float), np.asarray(ys, float)
+    if size is None:
+        ctx.extra['real_van_vleck_table_size'] = int(len(xs))
+    # ---- property, model-free (exact float comparisons)
+    bad_x = np.nonzero(~(np.diff(xs) > 0))[0]
+    bad_y = np.nonzero(~(np.diff(ys) >= 0))[0]
+    with np.errstate(all='ignore'):
+        v0, vneg = float(np.interp(0.0, xs, ys)), float(np.interp(-1.0, xs, ys))
+    if size is None:
+        ctx.extra['real_van_vleck_table_monotone'] = not len(bad_x) and not len(bad_y)
+    if v0 != 0.0 or vneg != 0.0:
+        ctx.disagree('route=vvtable;%s;obs=VV(0);symptom=zero_not_mapped_to_zero' % tag, dict(cfg, x=0.0),
+                     dict(VV0=v0, VVneg=vneg, first_nodes=[[float(a), float(b)] for a, b in zip(xs[:3], ys[:3])]), 0.0,
+                     'the Van Vleck correction of a zero (dead input) / negative autocorrelation is not zero: np.interp(0, table) = %r' % v0)
+    if len(bad_x) or len(bad_y) or not (xs[0] == 0 and ys[0] == 0):
+        i = int(bad_x[0]) if len(bad_x) else (int(bad_y[0]) if len(bad_y) else 0)
+        ctx.disagree('route=vvtable;%s;obs=table;symptom=%s' % (tag, 'abscissae_not_strictly_increasing' if len(bad_x) else
+                                                                 'ordinates_decrease' if len(bad_y) else 'first_node_not_origin'),
+                     dict(cfg, node=i), dict(x=[float(v) for v in xs[i:i + 2]], y=[float(v) for v in ys[i:i + 2]],
+                                             duplicates=int(len(bad_x))), 'strictly increasing / non-decreasing / (0, 0) first',
+                     'the Van Vleck lookup table is not a usable interpolation table (np.interp needs increasing abscissae)')
+    if len(xs) != nsize or len(ys) != nsize:
+        ctx.disagree('route=vvtable;%s;obs=size;symptom=wrong_length' % tag, cfg, [len(xs), len(ys)], nsize, 'table length is not `size`')
+    # ---- the hypotheses of the construction theorems on the arrays the real function computed
+    g, m = cap.get('grid'), cap.get('mean')
+    smax = float(np.abs(levels).max() ** 2)
+    if g is None or len(g) != len(m):
+        ctx.disagree('route=vvtable;%s;symptom=not_captured' % tag, cfg, None, 'grid', 'autocorr_lookup_table no longer calls '
+                     '_squared_quant_norm0_mean(levels, rxx_grid) once', kind='tie')
+        return
+    hyp = []
+    if len(g) and not (g[0] > 0 and np.all(np.diff(g) > 0)):
+        hyp.append('grid_not_positive_increasing')
+    if len(m) and not (m[0] > 0):
+        hyp.append('first_expected_quantised_power_is_zero(underflow)')
+    if len(m) and not np.all(np.diff(m) > 0):
+        hyp.append('expected_quantised_powers_not_strictly_increasing')
+    if len(m) and not (m[-1] < smax):
+        hyp.append('expected_quantised_power_reaches_sxx_max')
+    if hyp:
+        k = int(np.count_nonzero(m == 0))
+        ctx.disagree('route=vvtable;%s;obs=numerics;symptom=%s' % (tag, hyp[0].split('(')[0]), dict(cfg, x=0.0),
+                     dict(failed=hyp, zeros_in_sxx_mean=k, sxx_mean_head=[float(v) for v in m[:3]], rxx_grid_head=[float(v) for v in g[:3]]),
+                     'vv_numerics_ok', 'the hypotheses of the table theorems (positive, strictly increasing expected quantised '
+                     'powers below sxx_max) do not hold on the arrays autocorr_lookup_table computes')
+    # ---- through the public path: a dead input (autocorrelation exactly 0) must stay 0
+    try:
+        import dask
+        import dask.array as da
+        from katdal.vis_flags_weights import correct_autocorr_quantisation
+        v = np.zeros((2, 1, 3), np.complex64)
+        v[0, 0, :] = [0, 3 + 4j, 5.0]
+        v[1, 0, :] = [-2.0, 1j, 0]
+        with dask.config.set(scheduler='sync'), np.errstate(all='ignore'):
+            out = correct_autocorr_quantisation(da.from_array(v, chunks=(1, 1, 3)), [('a', 'a'), ('a', 'b'), ('b', 'b')],
+                                                **({} if cfg['levels'] == 'meerkat' else dict(levels=levels))).compute()
+        if size is None or size == 4000:
+            if not (out[0, 0, 0] == 0 and out[1, 0, 2] == 0 and out[1, 0, 0] == 0 and out[0, 0, 1] == v[0, 0, 1] and out[1, 0, 1] == 1j):
+                ctx.disagree('route=vvtable;%s;obs=dead_input;symptom=zero_not_mapped_to_zero' % tag, dict(cfg, x=0.0),
+                             [str(z) for z in out.ravel()], '0 for the zero / negative autocorrelations, cross products untouched',
+                             'correct_autocorr_quantisation gives a dead input (autocorrelation 0) a non-zero power')
+            ctx.traces_validated += 1
+    except Exception as e:
+        ctx.disagree('route=vvtable;%s;symptom=raises;exc=%s' % (tag, type(e).__name__), cfg, repr(e)[:200], 'array',
+                     'correct_autocorr_quantisation raised')
+    # ---- model side: decision procedure and interpolation on the real table, construction tie
+    if ctx.model_ok:
+        try:
+            tw = [[lit(x), lit(y)] for x, y in zip(xs, ys)]
+            mo, mc = ctx.model([[1514, [tw]], [1512, [[lit(x) for x in g], [lit(x) for x in m], lit(smax), tw, nsize]]])
+        except Exception:
+            if not ctx.searching:
+                raise
+            mo = mc = None
+        if mo is not None:
+            py_ok = not len(bad_x) and not len(bad_y) and xs[0] == 0 and ys[0] == 0
+            m0, mneg = big_val(mo[4]), big_val(mo[5])
+            if bool(mo[0]) != bool(py_ok) or mo[1] != (int(bad_x[0]) if len(bad_x) else -1) \
+                    or mo[2] != (int(bad_y[0]) if len(bad_y) else -1) or mo[6] != len(xs):
+                ctx.disagree('route=vvtable;%s;obs=decision;symptom=model_differs' % tag, cfg, [py_ok], mo[:4],
+                             'table_ok_b of the model and the numpy evaluation of the same table disagree', kind='tie')
+            if m0 != Fraction(v0) or mneg != Fraction(vneg):
+                ctx.disagree('route=vvtable;%s;obs=VV(0);vs=model;symptom=model_differs' % tag, dict(cfg, x=0.0), [v0, vneg],
+                             [str(m0), str(mneg)], 'np.interp(0, real table) differs from the model interpolation', kind='tie')
+            if not mo[0] or m0 != 0:
+                ctx.disagree('route=vvtable;%s;obs=VV(0);vs=theorem;symptom=table_check_fails' % tag, dict(cfg, x=0.0),
+                             dict(VV0=v0, first_bad_abscissa=mo[1], first_bad_ordinate=mo[2]), 'table_ok_b = true',
+                             'the decision procedure of theorem vanvleck_table_check_sound rejects the real table')
+            if mc[0] != -1 or mc[1] != len(xs) or mc[2] != len(xs) or mc[3] != len(g):
+                ctx.disagree('route=vvtable;%s;obs=construction;symptom=model_differs' % tag, cfg,
+                             dict(length=len(xs), grid=len(g)), mc,
+                             'the table built by the model (regenerated anchor / clip / factors / counts) from the real grid and '
+                             'expected quantised powers differs from the returned table at node %s' % mc[0], kind='tie')
+    ctx.traces_validated += 1
+    ctx.note_case(cfg_key(cfg), nontrivial=True, sample=dict(route='vvtable', levels=cfg['levels'], size=nsize,
+                                                             first_nodes=[[float(a), float(b)] for a, b in zip(xs[:2], ys[:2])]))
 
 
 # --------------------------------------------------------------------------- route avg
@@ -1636,17 +1848,38 @@ def gen_avg(rng, force=None):
     elif r < 0.12:        # the call without averaging options
         shape_kind = 'defaults'
         T, F, B = rng.randint(1, 12), rng.randint(6, 17), rng.randint(1, 2)
+    if 'shape' in force:
+        shape_kind = 'small'
+        T, F, B = force['shape']
     timeav = force.get('timeav', rng.randint(1, max(T, 1)) if rng.random() < 0.85 else rng.randint(T + 1, T + 3))
     chanav = force.get('chanav', rng.randint(1, max(F, 1)) if rng.random() < 0.85 else rng.randint(F + 1, F + 3))
     flagav = rng.random() < 0.5
     if shape_kind == 'defaults':
         timeav, chanav, flagav = 10, 8, False      # only to shape the values; the call leaves them out
     pf = rng.choice([0, 0.1, 0.4, 0.8, 1.0])
-    wmode = rng.choice(['pow2', 'pow2', 'int', 'signed', 'zero'])
+    wmode = force.get('wmode') or rng.choice(['pow2', 'pow2', 'int', 'signed', 'zero'])
     flags = [[[rng.random() < pf for _ in range(B)] for _ in range(F)] for _ in range(T)]
     if rng.random() < 0.3 and T:          # a fully flagged dump / channel
         t = rng.randrange(T)
         flags[t] = [[True] * B for _ in range(F)]
+    # the BYTE behind every flag.  flag_kind: 'canonical' = a home-made bool array (0 / 1); 'bytes' = a bool VIEW of
+    # arbitrary bytes (True backed by 2, 4, 16, 80, 255 ...); 'v4sim' = bitwise_and(select, raw).view(bool) as
+    # VisibilityDataV4 builds d.flags (raw bytes also carry unselected bits on unflagged samples); 'v4' = the same
+    # through a real v4 data set
+    flag_kind = force.get('flag_kind') or rng.choice(['canonical', 'bytes', 'bytes', 'v4sim', 'v4sim'])
+    byts, select = None, -1
+    if flag_kind == 'bytes':
+        byts = [[[rng.choice(FLAG_BYTES) if x else 0 for x in cell] for cell in row] for row in flags]
+    elif flag_kind in ('v4sim', 'v4'):
+        select = force.get('select', rng.choice([255, 255, 0x77, 16, 4, 64, 2 | 16 | 64, 1, 0, 254, 128 | 8]))
+        bits = [1 << i for i in range(8) if select >> i & 1]
+
+        def raw(x):
+            r = rng.randrange(256) if rng.random() < 0.6 else 0
+            return (r | rng.choice(bits)) if x else (r & ~select & 255)
+        if not bits:
+            flags = [[[False] * B for _ in range(F)] for _ in range(T)]
+        byts = [[[raw(x) for x in cell] for cell in row] for row in flags]
 
     def wgen():
         if wmode == 'pow2':
@@ -1655,6 +1888,8 @@ def gen_avg(rng, force=None):
             return [rng.randint(0, 6), rng.choice([0, 1])]
         if wmode == 'zero':
             return [0, 0]
+        if wmode == 'u8':
+            return [rng.randint(0, 6), 0]
         return [rng.choice([-2, -1, 1, 2]), 0]
     w = [[[wgen() for _ in range(B)] for _ in range(F)] for _ in range(T)]
     ta = max(1, min(timeav, T))
@@ -1673,8 +1908,52 @@ def gen_avg(rng, force=None):
                 if rng.random() < 0.1:
                     odd = 1
                 vis[t][f][b] = [[odd * rng.randint(-16, 16), 0], [odd * rng.randint(-16, 16), 0]]
-    return dict(route='avg', T=T, F=F, B=B, timeav=timeav, chanav=chanav, flagav=flagav, vis=vis, w=w, flags=flags,
-                shape_kind=shape_kind)
+    cfg = dict(route='avg', T=T, F=F, B=B, timeav=timeav, chanav=chanav, flagav=flagav, vis=vis, w=w, flags=flags,
+               shape_kind=shape_kind, flag_kind=flag_kind)
+    if byts is not None:
+        cfg.update(bytes=byts, select=select)
+    return cfg
+
+
+FLAG_BYTES = [1, 2, 4, 8, 16, 32, 64, 128, 80, 20, 3, 255, 254, 17]
+V4_FLAG_NAMES = ('reserved0', 'static', 'cam', 'data_lost', 'ingest_rfi', 'predicted_rfi', 'cal_rfi', 'postproc')
+
+
+def gen_v4avg(rng):
+    """the documented use of the averager on a v4 data set: average_visibilities(d.vis[:], d.weights[:], d.flags[:], ...)
+    after d.select(flags=...) for every kind of flag selection"""
+    n_ant = rng.choice([1, 1, 2])
+    T, F = rng.randint(1, 5), rng.randint(1, 5)
+    select = rng.choice([255, 255, 16, 4, 64, 1, 0, 2 | 16 | 64, 0x77, 254, 32, 2])
+    cfg = gen_avg(rng, force=dict(shape=[T, F, 2 * n_ant * (n_ant + 1)], wmode='u8', flag_kind='v4', select=select))
+    cfg.update(v4=dict(ants=['m%03d' % a for a in range(n_ant)], seed=rng.randrange(10 ** 6),
+                       names=[V4_FLAG_NAMES[i] for i in range(8) if select >> i & 1],
+                       how=rng.choice(['names', 'names', 'all' if select == 255 else 'names']),
+                       chunks=[compositions(rng, T), compositions(rng, F)]))
+    return cfg
+
+
+def v4avg_arrays(ctx, cfg):
+    """build the data set, select the flags, return (vis, weights, flags, timestamps, freqs, handle) as the data set
+    delivers them"""
+    import dask
+    from fixtures import v4
+    T, F, B = cfg['T'], cfg['F'], cfg['B']
+    vis = np.array([[[complex(lit_float(c[0]), lit_float(c[1])) for c in cell] for cell in row] for row in cfg['vis']],
+                   np.complex64).reshape(T, F, B)
+    arrays = {'correlator_data': vis,
+              'weights': np.array([[[x[0] for x in cell] for cell in row] for row in cfg['w']], np.uint8).reshape(T, F, B),
+              'weights_channel': np.ones((T, F), np.float32),
+              'flags': np.array(cfg['bytes'], np.uint8).reshape(T, F, B)}
+    v = cfg['v4']
+    ch = (tuple(v['chunks'][0]), tuple(v['chunks'][1]), (B,))
+    with dask.config.set(scheduler='sync'), np.errstate(all='ignore'):
+        x = v4.build_v4(T=T, F=F, ants=v['ants'], seed=v['seed'], arrays=arrays, need_weights_power_scale=False,
+                        chunks={'correlator_data': ch, 'flags': ch, 'weights': ch}, tmp=v4.scratch_dir('c15'))
+        d = x.d
+        d.select(flags='all' if v['how'] == 'all' else ','.join(v['names']))
+        out = (np.asarray(d.vis[:]), np.asarray(d.weights[:]), d.flags[:], d.timestamps, d.channel_freqs, x)
+    return out
 
 
 def run_avg(ctx, cfg):
@@ -1684,8 +1963,36 @@ def run_avg(ctx, cfg):
                    np.complex64).reshape(T, F, B)
     w = np.array([[[lit_float(x) for x in cell] for cell in row] for row in cfg['w']], np.float32).reshape(T, F, B)
     fl = np.array(cfg['flags'], bool).reshape(T, F, B)
+    fk = cfg.get('flag_kind', 'canonical')
+    handle = None
+    if cfg.get('v4'):
+        # the arrays exactly as the v4 data set delivers them (d.flags[:] is a bool VIEW of select & raw)
+        try:
+            gv, gw, gf, gts, gfr, handle = v4avg_arrays(ctx, cfg)
+        except Exception as e:
+            ctx.disagree('route=v4avg;symptom=raises;exc=%s' % type(e).__name__, cfg, repr(e)[:300], 'arrays',
+                         'building / reading the v4 data set raised', kind='tie')
+            return
+        try:
+            if gf.dtype != np.bool_ or not np.array_equal(gf, fl) or not np.array_equal(gv, vis) or not np.array_equal(gw, w):
+                ctx.disagree('route=v4avg;symptom=delivery', cfg, dict(flags=gf.astype(int).tolist()), np.array(cfg['flags']).astype(int).tolist(),
+                             'd.vis / d.weights / d.flags are not the stored arrays under the flag selection (C16 territory)', kind='tie')
+                return
+            vis, w, fl = gv, gw, gf
+            ctx.count('v4avg_true_bytes_not_0_1=%s' % bool(np.any(gf.view(np.uint8) > 1)))
+        finally:
+            import shutil
+            shutil.rmtree(handle.tmp, ignore_errors=True)
+    elif cfg.get('bytes') is not None:
+        raw = np.array(cfg['bytes'], np.uint8).reshape(T, F, B)
+        if cfg.get('select', -1) >= 0:
+            raw = np.bitwise_and(np.uint8(cfg['select']), raw)
+        fl2 = raw.view(bool)
+        assert np.array_equal(fl2, fl), 'generator: flag bytes and truth values disagree'
+        fl = fl2
+    ctx.count('avg_flag_kind=%s' % fk)
     defaults = cfg.get('shape_kind') == 'defaults'
-    mo, ma = cmodel(ctx, avg_wire(cfg)), cmodel(ctx, avg_api_wire(cfg))
+    mo, ma = avg_models(ctx, cfg)
     if mo == [-999] or ma == [-999]:
         ctx.disagree('route=avg;symptom=model_rejects_case', cfg, None, mo, 'wire format error', kind='tie')
         return
@@ -1695,7 +2002,8 @@ def run_avg(ctx, cfg):
     if defaults:
         # property side: the bins of the factors the call used, flags combined by AND (OR is optional, i.e. not the default)
         dta, dca = ma[-1]
-        ms = ctx.model([[155, [T, F, B, dta, dca, 0, avg_samples(cfg)]]])[0]
+        ms = ctx.model([[155, [T, F, B, dta, dca, 0, avg_samples(cfg)]]])[0] if ctx.model_ok else \
+            py_avg(dict(cfg, timeav=dta, chanav=dca, flagav=False))[0]
         mo = [ma[0]] + ([ma[2], ms[2] if ms[0] == 1 else None] if ma[0] == 1 else [])
         cfg = dict(cfg, timeav=dta, chanav=dca, flagav=False)
     else:
@@ -1768,8 +2076,9 @@ def run_avg(ctx, cfg):
                         nm, got, want = probs[0]
                         allflag = all(cfg['flags'][t][f][b] for t in range(T) for f in range(F)
                                       if t // min(cfg['timeav'], T) == i and f // cfg['chanav'] == j)
-                        sig = 'route=avg;obs=%s;vs=%s;flagav=%s;allflagged=%s;zero_wsum=%s;block=%s;symptom=wrong_value' % (
-                            nm, side, cfg['flagav'], allflag, wv == 0, 'first' if b < 128 else 'later')
+                        sig = 'route=avg;obs=%s;vs=%s;flagav=%s;allflagged=%s;zero_wsum=%s;block=%s;flags=%s;symptom=wrong_value' % (
+                            nm, side, cfg['flagav'], allflag, wv == 0, 'first' if b < 128 else 'later',
+                            'canonical' if fk == 'canonical' else 'true_bytes_not_1')
                         ctx.disagree(sig, cfg, dict(bin=[i, j, b], value=str(got)), str(want),
                                      'averaged %s of bin %s differs from the %s' % (nm, [i, j, b], side), kind=kind)
                         done = True
@@ -1783,7 +2092,7 @@ def run_avg(ctx, cfg):
     ctx.note_case(cfg_key(cfg), nontrivial=bool(multi and anyflag),
                   sample=dict(route='avg', shape=[T, F, B], timeav=cfg['timeav'], chanav=cfg['chanav'], flagav=cfg['flagav'],
                               out_shape=list(av.shape)))
-    ctx.count('route=avg')
+    ctx.count('route=%s' % ('v4avg' if cfg.get('v4') else 'avg'))
     ctx.count('avg_flagav=%s' % cfg['flagav'])
     ctx.count('avg_partial_bins=%s' % bool(T % ta or F % cfg['chanav']))
     ctx.count('avg_factor_exceeds_size=%s' % bool(cfg['timeav'] > T or cfg['chanav'] > F))
@@ -1791,13 +2100,15 @@ def run_avg(ctx, cfg):
 
 # --------------------------------------------------------------------------- driver
 ROUTES = {'kernel': run_kernel, 'vfw': run_vfw, 'v4': run_v4, 'v3': run_v3, 'vv': run_vv, 'avg': run_avg,
-          'lookup': run_lookup, 'store': run_store}
+          'lookup': run_lookup, 'store': run_store, 'vvtable': check_real_table, 'v4avg': run_avg}
 
 
 def run_case(ctx, cfg):
     r = cfg.get('route')
     if r == 'vvtable':
-        return check_real_table(ctx)
+        return check_real_table(ctx, cfg if 'levels' in cfg else None)
+    if r == 'avg' and not ctx.model_ok and ctx.searching:
+        return run_avg(ctx, cfg)
     if r == 'extraction':
         return cross_check_extraction(ctx)
     if r not in ROUTES:
@@ -1809,27 +2120,40 @@ def run_case(ctx, cfg):
 
 def run(ctx):
     import random
+    def needs_model(case):
+        return not ctx.model_ok and case.get('route') not in ('avg', 'vvtable')
     for f in ctx.findings:
-        if f.get('witness'):
+        if f.get('witness') and not needs_model(f['witness']):
             run_case(ctx, f['witness'])
     corpus = os.path.join(os.path.dirname(os.path.dirname(os.path.dirname(os.path.abspath(__file__)))), 'corpus', 'C15')
     if os.path.isdir(corpus):
         import json
         for fn in sorted(os.listdir(corpus)):
             if fn.endswith('.json'):
-                run_case(ctx, json.load(open(os.path.join(corpus, fn))))
+                case = json.load(open(os.path.join(corpus, fn)))
+                if not needs_model(case):
+                    run_case(ctx, case)
     check_real_table(ctx)
 
     def sub():
         return random.Random(ctx.rng.getrandbits(48))
+    if not ctx.model_ok:
+        # no model binary at all (a translator item refused the tree and no driver of a good tree is around): the
+        # routes that can state the property in Python still search for a failing input
+        for _ in range(ctx.scale(8, 40)):
+            check_real_table(ctx, gen_vvtable(sub()))
+        for gen, n in ((gen_avg, ctx.scale(300, 3000)), (gen_v4avg, ctx.scale(24, 200))):
+            for _ in range(n):
+                run_avg(ctx, gen(sub()))
+        return
     # (route, generator, quick, thorough); VERIF_C15_ROUTES=a,b restricts the run (development aid only)
     plan = [('kernel', gen_kernel, 250, 6000), ('vfw', gen_vfw, 90, 1500), ('store', gen_store, 110, 2000),
             ('lookup', gen_lookup, 16, 200), ('avg', gen_avg, 300, 8000), ('v4', gen_v4, 36, 320), ('v3', gen_v3, 48, 400),
-            ('vv', gen_vv, 10, 120)]
+            ('vv', gen_vv, 10, 120), ('vvtable', gen_vvtable, 8, 60), ('v4avg', gen_v4avg, 24, 240)]
     only = [r for r in os.environ.get('VERIF_C15_ROUTES', '').split(',') if r]
     import time
     secs = {}
-    batch = {'kernel': prefetch_kernel, 'avg': prefetch_avg}
+    batch = {'kernel': prefetch_kernel, 'avg': prefetch_avg, 'v4avg': prefetch_avg}
     for route, gen, nq, nt in plan:
         t0 = time.time()
         cfgs = [gen(sub()) for _ in range(ctx.scale(nq, nt))]
